@@ -22,6 +22,10 @@ type skOp struct {
 	C  string `json:"c"`
 	G  int    `json:"g"`
 	OK bool   `json:"ok"`
+	// the model's size bookkeeping of the contract the operation is applied to (sectors stored / of
+	// capacity, before scaling); nil in replay files written before these fields existed
+	Sz0  *int `json:"sz0,omitempty"`
+	Cap0 *int `json:"cap0,omitempty"`
 }
 
 func isSegStart(k string) bool {
@@ -175,10 +179,14 @@ type stats struct {
 	validated              int // requests that passed the real Validate methods
 	probes, probesAccepted int
 	boundsSeen             map[string]int
+	// successful appends by how the appended sectors compare with the free capacity of the contract
+	// (capacity - filesize before the call): no-free-space / smaller / equal / larger
+	appendVsFree map[string]int
+	sizeChecks   int // operations whose real contract matched the model's sectors stored / of capacity
 }
 
 func newStats() *stats {
-	return &stats{ops: map[string]int{}, classes: map[string]int{}, branches: map[string]int{}, boundsSeen: map[string]int{}}
+	return &stats{ops: map[string]int{}, classes: map[string]int{}, branches: map[string]int{}, boundsSeen: map[string]int{}, appendVsFree: map[string]int{}}
 }
 
 func (s *stats) merge(o *stats) {
@@ -194,6 +202,10 @@ func (s *stats) merge(o *stats) {
 	for k, v := range o.boundsSeen {
 		s.boundsSeen[k] += v
 	}
+	for k, v := range o.appendVsFree {
+		s.appendVsFree[k] += v
+	}
+	s.sizeChecks += o.sizeChecks
 	s.okRev += o.okRev
 	s.errRev += o.errRev
 	s.accepted += o.accepted
@@ -241,6 +253,16 @@ func runSequence(idx int, sk []skOp, seed int64) *seqRun {
 			break
 		}
 		op := sk[i]
+		if i > 0 && op.Sz0 != nil && op.Cap0 != nil {
+			// the real contract the ledger holds has the sizes the model expects at this point
+			wantFS, wantCap := uint64(*op.Sz0)*s.scale*rhp4.SectorSize, uint64(*op.Cap0)*s.scale*rhp4.SectorSize
+			if s.cur.Filesize != wantFS || s.cur.Capacity != wantCap {
+				s.infraf("operation %d: contract has filesize %d capacity %d, the model expects %d / %d (no trace line was refused so far)",
+					i, s.cur.Filesize, s.cur.Capacity, wantFS, wantCap)
+				break
+			}
+			s.st.sizeChecks++
+		}
 		if isSegStart(op.K) {
 			s.segStart(i)
 		} else {
@@ -952,6 +974,18 @@ func (s *seqRun) finishRevision(kind, f, c string, n uint64, amount types.Curren
 	if f == "short" || c == "short" {
 		s.abort = "short class succeeded"
 		return false
+	}
+	if kind == "append" && n > 0 {
+		switch free := (before.Capacity - before.Filesize) / rhp4.SectorSize; {
+		case free == 0:
+			s.st.appendVsFree["no-free-space"]++
+		case n < free:
+			s.st.appendVsFree["smaller"]++
+		case n == free:
+			s.st.appendVsFree["equal"]++
+		default:
+			s.st.appendVsFree["larger"]++
+		}
 	}
 	if !drain && s.r.Intn(2) == 0 {
 		s.probeRevision(before, rev)
